@@ -1666,8 +1666,9 @@ class C09(Check):
         "statement skeleton parsed on every run from network_isolation.cpp IS the reference program (cpp_search_is_reference, decide) whose "
         "interpretation equals checkIsolated on every input (cpp_search_means_checkIsolated), which clears exactly the nodes reachable "
         "through data==1 entries (dfs_reaches_exactly, cpp_search_reaches_exactly; the while loop always ends on the empty set, "
-        "search_fuel_suffices); the ast skeletons of _initialize_internal_graph / _get_csr_data_index / _update_internal_graph / "
-        "_get_isolated_junctions_and_links, the registries they iterate (pipes, pumps, valves; all junctions and ALL links for the "
+        "search_fuel_suffices); the statement trees parsed from _update_internal_graph and _get_isolated_junctions_and_links mean updateGraph "
+        "and getIsolated (update_program_means_updateGraph, isolated_program_means_getIsolated); the ast skeletons of "
+        "_initialize_internal_graph / _get_csr_data_index, the registries iterated (pipes, pumps, valves; all junctions and ALL links for the "
         "previously-isolated seeds), the head and the loop body of run_sim are the ones the model transliterates (python_shape_is_reference); "
         "(bookkeeping) the CSR entry of a node pair is 1 iff some link of the pair is not Closed under the status property of its class "
         "(Pipe/Pump: internal Closed wins, else user; Valve: user Closed/Open win, else internal; Open, Active, CV count as open) over every "
@@ -1685,8 +1686,10 @@ class C09(Check):
         "(the interpreter works on unbounded integers and a duplicate-free list; counted loops read their bounds once, justified by "
         "reference_program_wf), scipy's csr_matrix constructor (structure contract StaticP is a hypothesis, evaluated on every generated "
         "case), SWIG marshalling, the hydraulic solve (full runs are judged by the statement's oracle only; generated hydraulics are kept "
-        "benign: control valves are bridges, at most one FCV, no tank next to two control valves). The Python skeletons are tied to the "
-        "Lean functions by reading (token = group of source statements), not by an interpreter; only the C++ search has one. The order of "
+        "benign: control valves are bridges, at most one FCV, no tank next to two control valves). _update_internal_graph and "
+        "_get_isolated_junctions_and_links are parsed into statement trees whose interpretation is proved equal to updateGraph / getIsolated "
+        "(one tree node = a fixed group of source statements, matched textually); _initialize_internal_graph, _get_csr_data_index and the head "
+        "of run_sim are token skeletons tied to initGraph / getCsrDataIndex / startRun by reading plus the differential runs. The order of "
         "the calls inside run_sim is tied by the generated token list and by the grammar check on the observed traces. Theorems exclude "
         "self-loops (accepted by WNTR, rejected by EPANET; exercised by the correspondence). reset_initial_values between two runs of one "
         "simulator is exercised, not modelled.",
@@ -1906,6 +1909,8 @@ class C09(Check):
         return (net["n"] - 1) not in used
 
     def _save_corpus(self, kind, obj):
+        if os.path.realpath(vlib.REPO) != "/repo":
+            return                # disagreements seen on a scratch / mutated tree do not belong in the corpus
         d = os.path.join(vlib.CORPUS, "C09")
         os.makedirs(d, exist_ok=True)
         import hashlib
